@@ -1,6 +1,7 @@
 import Lean.Data.Json
 import CoercionModel.Model.Types
 import CoercionModel.Model.Walk
+import CoercionModel.Model.Attempts
 open Lean
 namespace Coercion
 
@@ -15,5 +16,16 @@ deriving instance FromJson, ToJson for Sequence
 deriving instance FromJson, ToJson for Block
 deriving instance FromJson, ToJson for Plan
 deriving instance FromJson, ToJson for Walk.Item
+
+
+deriving instance FromJson, ToJson for Attempts.RespKind
+deriving instance FromJson, ToJson for Attempts.PErr
+deriving instance FromJson, ToJson for Attempts.Outcome
+
+instance : ToJson Attempts.Ev where
+  toJson
+    | .write st n => Json.mkObj [("l", "write"), ("status", toJson st), ("attempts", n)]
+    | .enter k => Json.mkObj [("l", "enter"), ("call", k)]
+    | .exit k => Json.mkObj [("l", "exit"), ("call", k)]
 
 end Coercion
